@@ -1,6 +1,6 @@
 """C17: Manager::recycle of deadpool-redis (standalone, sentinel, cluster) from MIR on a model of redis::Pipeline / Cmd.
 The ping counter is a symbolic 64-bit value, the server's reply an arbitrary string: freshness and echo checking are decided by z3."""
-import re
+import re, os
 import z3
 from .mir import Unmodelled
 from .core import (I, Agg, Ref, Opaque, UNINIT, UNIT, NONE, PENDING, mk_enum, some, ok, err, ready, payload, is_sym, simp, z, b_not, b_and,
@@ -237,7 +237,24 @@ def run_c17(prog, job):
         def recycle_runs(st, mroot, label):
             """run one recycle to completion (or cancel it at its await); yields (state, outcome) with outcome in Ok / Err / cancelled / panic"""
             nonlocal npaths
-            conn = st.alloc(Agg('Conn', [Opaque('conn')]))
+            # the pooled value is whatever type recycle() takes: the client library's connection itself, or a struct of the crate that
+            # wraps it - then every other field is arbitrary (bookkeeping left behind by the previous user; the raw connection is
+            # reachable through Deref / AsMut, so no relation between such a field and the connection's real state can be assumed)
+            pty = re.sub(r"^&(?:'\w+ )?(?:mut )?", '', M.fns[fn[0]].params[1][1]).strip()
+            sk = [k for k in prog.structs if k[1] == pty.split('::')[-1].split('<')[0] and 'redis/src' in k[0]]
+            if sk:
+                vals = []
+                src = open(os.path.join(os.environ.get('VERIF_REPO', '/repo'), sk[0][0])).read()
+                body = re.search(r'struct\s+' + re.escape(sk[0][1]) + r'\b[^{]*\{(.*?)\n\}', src, re.S).group(1)
+                for f_ in prog.structs[sk[0]]:
+                    ft = re.search(r'\b' + re.escape(f_) + r'\s*:\s*([^,\n]+)', body).group(1).strip()
+                    if 'Connection' in ft: vals.append(Agg('Conn', [Opaque('conn')]))
+                    elif ft == 'bool': vals.append(z3.Bool(f'pooled_{f_}_{label}'))
+                    elif ft in ('usize', 'u64'): vals.append(st.fresh(f'pooled_{f_}'))
+                    else: raise Unmodelled(f'field {f_}: {ft} of the pooled type {pty}')
+                conn = st.alloc(Agg(sk[0][1], vals))
+            else:
+                conn = st.alloc(Agg('Conn', [Opaque('conn')]))
             st.log = st.log + (('act', 'recycle', label),)
             res = []
             # the metrics of the object are arbitrary: first reuse (never recycled) or any later one (symbolic count, symbolic idle time)
@@ -313,7 +330,7 @@ def run_c17(prog, job):
         for st_t, r_t in outs_t:
             takes = st_t.gget('object_takes', ())
             oblige('Connection::take takes the underlying object exactly once (Object::take on the wrapped object)', st_t, len(takes) == 1 and takes[0] is pooled)
-            oblige('Connection::take returns what Object::take returned', st_t, r_t[0] == 'ok' and isinstance(r_t[1], Agg) and r_t[1].ty == 'Taken' and r_t[1].f[0] is pooled)
+            oblige('Connection::take returns what Object::take returned', st_t, r_t[0] == 'ok' and ((isinstance(r_t[1], Agg) and r_t[1].ty == 'Taken' and r_t[1].f[0] is pooled) or r_t[1] is pooled))     # the taken value, or (a pooled wrapper struct) the connection inside it
             oblige('Connection::take talks to nobody else (no command is sent, the pooled object is not dropped behind the pool\'s back)', st_t,
                    not st_t.gget('sent', ()) and not st_t.gget('pooled_dropped'))
 
